@@ -1,4 +1,4 @@
-"""C08 -- source-annotated syntax tree (VGC + RCA rules R08.1-R08.9)."""
+"""C08 -- source-annotated syntax tree (VGC + RCA rules R08.1-R08.10)."""
 from __future__ import annotations
 
 import ast
@@ -68,6 +68,38 @@ def check(ctx, res) -> None:
 
     line_table_rule(ctx, res, "R08.8")
     _fstring_family_rule(ctx, res)
+    _cursor_rule(ctx, res)
+
+
+def _cursor_rule(ctx, res) -> None:
+    """R08.10: the token source keeps ONE cursor, `self.offset`.  Whether a found token lies in a comment is decided by
+    scanning from the cursor (`_good_token`), and skipping a comment moves the cursor to the end of the line.  Every
+    FORWARD search of the source text therefore starts at the cursor: a search resumed from somewhere else (the end of a
+    rejected match) can return a token that lies before the cursor -- inside the comment just skipped -- and the comment
+    scan, given an empty range, accepts it."""
+    idx = ctx.idx
+    src = idx.need_class(SOURCE)
+    n = 0
+    for mname, m in sorted(src.methods.items()):
+        for c in calls_in(m.node):
+            if not isinstance(c.func, ast.Attribute) or c.func.attr not in ("index", "find", "search", "match"):
+                continue
+            if c.func.attr in ("index", "find"):
+                if not is_self_attr(c.func.value, "source") or len(c.args) < 2:
+                    continue
+                start = c.args[1]
+            else:
+                if not (c.args and is_self_attr(c.args[0], "source")) or len(c.args) < 2:
+                    continue
+                start = c.args[1]
+            n += 1
+            ok = any(is_self_attr(x, "offset") for x in ast.walk(start))
+            res.add("R08.10", f"_Source.{mname}|search-from-cursor#{n}", ok, f"{m.unit.rel}:{c.lineno}",
+                    "the forward search starts at the cursor" if ok else
+                    f"`{ast.unparse(c)}` starts at `{ast.unparse(start)}`, not at the cursor self.offset: after a comment was skipped the search can return a "
+                    "token that lies before the cursor (a second number / comma / string inside the same comment), `_good_token` scans an empty range and "
+                    "accepts it, and the node's region is text inside a comment", function=m.qualname)
+    res.floor("R08.10", "forward searches of the token source", n, 4)
 
 
 def _check_main(ctx, res) -> None:
